@@ -518,7 +518,7 @@ func runHistories(r *ev.Run) {
 	r.Alias("traces_validated_against_impl", "transitions")
 	switch prop {
 	case "C01":
-		r.Set("rule", "breadth-first search over block histories (one letter = one block: a transaction list, a vote pattern, a proposer, evidence); every history is executed from genesis on a bundle of replicas of the real ABCI multiplexer + all real applications: proposer (PrepareProposal + cached results), validator (ProcessProposal executes), plain replay, validator that first processed a different proposal, validator with CheckTx/queries injected between all ABCI calls, on-disk replica closed and reopened before every block; badger and pathbadger; oracle: identical state root, per-transaction code/data/gas, validator updates as a set, and acceptance of the honest proposal Genesis variants with a compute runtime served by all nodes add: warm-up to the first executor committee, runtime rounds (correctly signed executor commitments of all workers / the scheduler only / with a dissenting worker / with failure votes / with backup votes; emitting staking transfer, withdraw, add-escrow, reclaim, update-runtime and malformed runtime messages; processing the incoming message queue with right and wrong hash), SubmitMsg, RegisterRuntime updates, runtime node registrations. Timeline phase: N-block histories with one letter at every chosen offset and empty blocks (or, with a runtime, finalized rounds) elsewhere, oracle evaluated on every block.")
+		r.Set("rule", "breadth-first search over block histories (one letter = one block: a transaction list, a vote pattern, a proposer, evidence); every history is executed from genesis on a bundle of replicas of the real ABCI multiplexer + all real applications: proposer (PrepareProposal + cached results), validator (ProcessProposal executes), plain replay, validator that first processed a different proposal, validator with CheckTx/queries injected between all ABCI calls, on-disk replica closed and reopened before every block; badger and pathbadger; oracle: identical state root, per-transaction code/data/gas/events, block events, validator updates as a set, and acceptance of the honest proposal Genesis variants with a compute runtime served by all nodes add: warm-up to the first executor committee, runtime rounds (correctly signed executor commitments of all workers / the scheduler only / with a dissenting worker / with failure votes / with backup votes; emitting staking transfer, withdraw, add-escrow, reclaim, update-runtime and malformed runtime messages; processing the incoming message queue with right and wrong hash), SubmitMsg, RegisterRuntime updates, runtime node registrations. Timeline phase: N-block histories with one letter at every chosen offset and empty blocks (or, with a runtime, finalized rounds) elsewhere, oracle evaluated on every block.")
 	case "C05":
 		r.Set("rule", "breadth-first search over block histories of staking / governance transactions (valid and invalid, zero/huge amounts, reserved and equal addresses, fees), vote patterns, proposers and evidence, crossing epoch boundaries (interval 3); after every block: total supply = general + escrow.active + escrow.debonding + common pool + governance deposits + last block fees; per escrow account total shares = sum of (debonding) delegations; supply never increases and decreases exactly by the block's burn events Genesis variants with a compute runtime served by all nodes add: warm-up to the first executor committee, runtime rounds (correctly signed executor commitments of all workers / the scheduler only / with a dissenting worker / with failure votes / with backup votes; emitting staking transfer, withdraw, add-escrow, reclaim, update-runtime and malformed runtime messages; processing the incoming message queue with right and wrong hash), SubmitMsg, RegisterRuntime updates, runtime node registrations. Timeline phase: N-block histories with one letter at every chosen offset and empty blocks (or, with a runtime, finalized rounds) elsewhere, oracle evaluated on every block.")
 	case "C10":
